@@ -96,6 +96,8 @@ struct Offer {
     /// appear ONLY in this section - the BUNDLE-tagged one, listed first in a=group:BUNDLE -
     /// and nowhere else (WebRTC flavour, bundled offers only)
     tag: Option<u8>,
+    /// when Some: the BUNDLE group lists only the sections whose bit is set (a PARTIAL group)
+    group_mask: Option<u8>,
 }
 
 #[derive(Clone, Copy, PartialEq, Eq, Debug)]
@@ -153,7 +155,7 @@ fn render(o: &Offer, fl: Flavor, version: u32) -> String {
         transport(&mut s);
     }
     if o.bundle {
-        let mut mids: Vec<String> = o.secs.iter().enumerate().filter_map(|(i, x)| mid_of(x, i)).collect();
+        let mut mids: Vec<String> = o.secs.iter().enumerate().filter(|(i, _)| o.group_mask.map_or(true, |m| m & (1 << i) != 0)).filter_map(|(i, x)| mid_of(x, i)).collect();
         if let Some(t) = o.tag {
             if let Some(tm) = o.secs.get(t as usize).and_then(|x| mid_of(x, t as usize)) {
                 mids.retain(|m| *m != tm);
@@ -287,7 +289,7 @@ fn offer_json(o: &Offer) -> Value {
         "sections": o.secs.iter().map(|x| json!({
             "kind": x.kind.name(), "mid": format!("{:?}", x.mid), "codec": x.codec, "ext": x.ext,
             "dir": DIRS[x.dir as usize], "rtcp_mux": x.mux})).collect::<Vec<_>>(),
-        "setup": SETUPS[o.setup as usize], "bundle": o.bundle, "session_level_transport": o.sess_level, "transport_only_in_section": o.tag,
+        "setup": SETUPS[o.setup as usize], "bundle": o.bundle, "session_level_transport": o.sess_level, "transport_only_in_section": o.tag, "bundle_group_mask": o.group_mask,
     })
 }
 
@@ -1228,7 +1230,7 @@ fn build_space(tier: Tier, ci: usize) -> (Vec<Case>, String) {
                     for &sess_level in &levels {
                         cases.push(Case {
                             cfg: ci,
-                            offer: Offer { secs: vec![s.clone()], setup, bundle, sess_level, tag: None },
+                            offer: Offer { secs: vec![s.clone()], setup, bundle, sess_level, tag: None, group_mask: None },
                             change: None,
                             block: "A:n=1",
                         });
@@ -1251,7 +1253,7 @@ fn build_space(tier: Tier, ci: usize) -> (Vec<Case>, String) {
                 for &bundle in &[true, false] {
                     cases.push(Case {
                         cfg: ci,
-                        offer: Offer { secs: w.clone(), setup, bundle, sess_level: false, tag: None },
+                        offer: Offer { secs: w.clone(), setup, bundle, sess_level: false, tag: None, group_mask: None },
                         change: None,
                         block: "B:n=2",
                     });
@@ -1274,7 +1276,7 @@ fn build_space(tier: Tier, ci: usize) -> (Vec<Case>, String) {
             }
             for w in words {
                 for &bundle in &[true, false] {
-                    cases.push(Case { cfg: ci, offer: Offer { secs: w.clone(), setup: 0, bundle, sess_level: false, tag: None }, change: None, block: "B2:mux-per-section" });
+                    cases.push(Case { cfg: ci, offer: Offer { secs: w.clone(), setup: 0, bundle, sess_level: false, tag: None, group_mask: None }, change: None, block: "B2:mux-per-section" });
                     n_b += 1;
                 }
             }
@@ -1301,7 +1303,7 @@ fn build_space(tier: Tier, ci: usize) -> (Vec<Case>, String) {
                     for &bundle in &[true, false] {
                         cases.push(Case {
                             cfg: ci,
-                            offer: Offer { secs: w.clone(), setup: 0, bundle, sess_level: false, tag: None },
+                            offer: Offer { secs: w.clone(), setup: 0, bundle, sess_level: false, tag: None, group_mask: None },
                             change: None,
                             block: "C:n=3..6",
                         });
@@ -1322,12 +1324,12 @@ fn build_space(tier: Tier, ci: usize) -> (Vec<Case>, String) {
         let mut bases: Vec<Offer> = vec![];
         for s in &d1 {
             for &bundle in &[true, false] {
-                bases.push(Offer { secs: vec![s.clone()], setup: 0, bundle, sess_level: false, tag: None });
+                bases.push(Offer { secs: vec![s.clone()], setup: 0, bundle, sess_level: false, tag: None, group_mask: None });
             }
         }
         for w in product2(&d2) {
             for &bundle in &[true, false] {
-                bases.push(Offer { secs: w.clone(), setup: 0, bundle, sess_level: false, tag: None });
+                bases.push(Offer { secs: w.clone(), setup: 0, bundle, sess_level: false, tag: None, group_mask: None });
             }
         }
         let mut n_d = 0u64;
@@ -1358,7 +1360,7 @@ fn build_space(tier: Tier, ci: usize) -> (Vec<Case>, String) {
                         secs.push(video(s.mid));
                     }
                     for &bundle in &[true, false] {
-                        let o = Offer { secs: secs.clone(), setup: 0, bundle, sess_level: false, tag: None };
+                        let o = Offer { secs: secs.clone(), setup: 0, bundle, sess_level: false, tag: None, group_mask: None };
                         cases.push(Case { cfg: ci, offer: o.clone(), change: None, block: "E:formatless" });
                         n_e += 1;
                         if s.dir == 0 {
@@ -1384,7 +1386,7 @@ fn build_space(tier: Tier, ci: usize) -> (Vec<Case>, String) {
             for w in product2(&base).into_iter().chain(words(&base, 3).into_iter().filter(|w| w.iter().filter(|x| x.kind == Kind::App).count() <= 1)) {
                 for tag in 0..w.len() as u8 {
                     for setup in 0..SETUPS.len() as u8 {
-                        let o = Offer { secs: w.clone(), setup, bundle: true, sess_level: false, tag: Some(tag) };
+                        let o = Offer { secs: w.clone(), setup, bundle: true, sess_level: false, tag: Some(tag), group_mask: None };
                         cases.push(Case { cfg: ci, offer: o.clone(), change: None, block: "F:tagged-transport" });
                         cases.push(Case { cfg: ci, offer: o, change: Some(0), block: "F:tagged-transport-second" });
                         n_f += 2;
@@ -1392,9 +1394,28 @@ fn build_space(tier: Tier, ci: usize) -> (Vec<Case>, String) {
                 }
             }
         }
+        // Block G: PARTIAL BUNDLE groups - three sections, the offered group lists only two of them
+        // (every choice), every section with its own transport attributes; the answer's group must
+        // stay inside the offered one. First and second negotiation.
+        let mut n_g = 0u64;
+        {
+            let base: Vec<Sec> = vec![
+                Sec { kind: Kind::Audio, mid: Mid::Numeric, codec: 1, ext: 1, dir: 0, mux: true },
+                Sec { kind: Kind::Video, mid: Mid::Numeric, codec: 0, ext: 1, dir: 0, mux: true },
+                Sec { kind: Kind::App, mid: Mid::Numeric, codec: 0, ext: 0, dir: 0, mux: false },
+            ];
+            for w in words(&base, 3).into_iter().filter(|w| w.iter().filter(|x| x.kind == Kind::App).count() <= 1) {
+                for mask in [0b011u8, 0b101, 0b110] {
+                    let o = Offer { secs: w.clone(), setup: 0, bundle: true, sess_level: false, tag: None, group_mask: Some(mask) };
+                    cases.push(Case { cfg: ci, offer: o.clone(), change: None, block: "G:partial-bundle" });
+                    cases.push(Case { cfg: ci, offer: o, change: Some(0), block: "G:partial-bundle-second" });
+                    n_g += 2;
+                }
+            }
+        }
         let d = format!(
-            "cfg={}: A(n=1)={} B(n=2)={} C(n=3..6)={} D(two negotiations)={} E(formatless sections)={} F(transport only in the tagged section)={}",
-            c.name, n_a, n_b, n_c, n_d, n_e, n_f
+            "cfg={}: A(n=1)={} B(n=2)={} C(n=3..6)={} D(two negotiations)={} E(formatless sections)={} F(transport only in the tagged section)={} G(partial BUNDLE groups)={}",
+            c.name, n_a, n_b, n_c, n_d, n_e, n_f, n_g
         );
         (cases, d)
     }
